@@ -176,9 +176,9 @@ example : ParserProducible docTwoOperations ∧ ¬ NoKnownParseTrigger docTwoOpe
 /-! ## Stage 2: the frontend proper -/
 
 /-- The guard of the partial theorem: the document does not run into one of the known defect
-classes.  F-6, F-7 and N-1 are delimited syntactically (`parse_panics_f6_iff`,
-`frontend_panics_f7_only_if`, `frontend_panics_n1_only_if`); the other classes are delimited by
-the model's own panic site —
+classes.  F-6, F-7, N-1 and N-2 are delimited syntactically (`parse_panics_f6_iff`,
+`frontend_panics_f7_only_if`, `frontend_panics_n1_only_if`, `frontend_panics_n2_only_if`); the
+other classes (F-8, F-12, N-3, N-4, N-6) are delimited by the model's own panic site —
 the decidable statement "`compile S doc` does not panic at that site" — which the harness
 replays against the real code for every generated document. -/
 def NoKnownTrigger (S : SchemaView) (doc : Doc) : Prop :=
@@ -243,6 +243,13 @@ theorem frontend_panics_f7_only_if {S : SchemaView} (hS : ValidSchemaView S) {do
     (h : compile S doc = .panic .retransform) :
     ∃ q, parseDocument doc = .ok q ∧ hasRetrNode q.rootField = true :=
   compile_retransform hS h
+
+/-- N-2 is reached only if some field has an enum literal among its arguments. -/
+theorem frontend_panics_n2_only_if {S : SchemaView} (hS : ValidSchemaView S) {doc : Doc}
+    (h : compile S doc = .panic .enumArgument) :
+    ∃ q, parseDocument doc = .ok q ∧
+      (argsHaveEnum q.rootConnection.arguments = true ∨ hasEnumNode q.rootField = true) :=
+  compile_enumArgument hS h
 
 /-! ### Witnesses (each is in `corpus/C10.cases` as text and replayed against the real code) -/
 
@@ -359,6 +366,7 @@ end TF.C10
 #print axioms TF.C10.frontend_total_partial
 #print axioms TF.C10.frontend_panics_n1_only_if
 #print axioms TF.C10.frontend_panics_f7_only_if
+#print axioms TF.C10.frontend_panics_n2_only_if
 #print axioms TF.C10.f7_witness
 #print axioms TF.C10.f8_witness
 #print axioms TF.C10.f12_witness
